@@ -266,7 +266,7 @@ class _Tie:
         self.n = 0
         self.jit_seen = set()
         self.jit_units = 0
-        self.jit_budget = 32 if quick else 160
+        self.jit_budget = 42 if quick else 160
         self.called = []
 
     # -- bookkeeping ----------------------------------------------------------------------------------------------
@@ -424,7 +424,7 @@ class _Tie:
         cplx_in = wt.kind == "c" or (amp is not None and np.dtype(DT[amp]).kind == "c") or s["fill"] == "complex"
         if not robust and out.kind != "c" and cplx_in:
             return None, 0          # typing fails: cheap
-        if robust and (np.result_type(wt, out) != np.complex128 or out.kind != "c"):
+        if robust and (wt != np.complex128 or out.kind != "c"):      # refused before the kernel, at typing, or never executed (G1)
             return None, 0
         return (iname, aname, amp, wt.name, tuple(s["lt"]), s["fill"], out.name), (5 if robust else 1)
 
@@ -1036,12 +1036,19 @@ class _Tie:
                 setattr(das, k, spy(k, f))
             with warnings.catch_warnings():
                 warnings.simplefilter("ignore")
-                self.fam_plan()
-                t1 = time.time()
-                self.fam_infer()
-                self.fam_ctors()
-                self.fam_lower()
-                self.fam_values()
+                t1 = t0
+                for fam in (self.fam_plan, self.fam_infer, self.fam_ctors, self.fam_lower, self.fam_values):
+                    try:
+                        fam()
+                    except Exception as e:  # noqa: BLE001   (the library refused objects every family builds as valid ones)
+                        where = [f"{t.filename.split('/')[-1]}:{t.lineno} {t.line}" for t in traceback.extract_tb(e.__traceback__)][-3:]
+                        self.chk.violation(f"tie:{fam.__name__}:exception",
+                                           f"tie C02: {fam.__name__} stopped: {type(e).__name__}: {e} at {where}",
+                                           {"correspondence": "construction of valid Frame / FocalLaw / TxRxAmplitudes objects "
+                                                              "(Model.DasGlue.focal_law_init / txrx_init accept them)",
+                                            "exception": f"{type(e).__name__}: {e}", "where": where}, failing_input_found=False)
+                    if fam == self.fam_plan:
+                        t1 = time.time()
         finally:
             for k, f in originals.items():
                 setattr(das, k, f)
